@@ -17,9 +17,9 @@ Judge(r) ==
   ELSE IF ~WellOrdered(r.events) THEN <<V(r.id, "violation", "", "lifecycle events out of order")>>
   ELSE IF \E i \in 1..Len(r.events) : r.events[i].ev = "codegen" /\ ~LoopEnded(r.events[i])
          THEN <<V(r.id, "deviation", "PassLoop:" \o r.hazard, "the pass loop revisits a state / hits the pass cap: it would not terminate")>>
-  ELSE IF \E i \in 1..Len(r.events) : r.events[i].ev \in {"codegen", "parsed"} /\ ~DiagsOk(r.events[i], files)
+  ELSE IF \E i \in 1..Len(r.events) : r.events[i].ev \in {"codegen", "parsed", "merge"} /\ ~DiagsOk(r.events[i], files)
          THEN <<V(r.id, "violation", "", "a diagnostic location lies outside the project's files")>>
-  ELSE IF r.ideal = "diagnostic" /\ ~\E i \in 1..Len(r.events) : r.events[i].ev \in {"codegen", "parsed"} /\ Len(r.events[i].diags) > 0
+  ELSE IF r.ideal = "diagnostic" /\ ~\E i \in 1..Len(r.events) : r.events[i].ev \in {"codegen", "parsed", "merge"} /\ Len(r.events[i].diags) > 0
          THEN <<V(r.id, "violation", "", "an operation outside its domain was accepted silently (neither value nor diagnostic is meaningful here)")>>
   ELSE <<>>
 
